@@ -44,6 +44,26 @@ def _copies(cfg, expr: ast.expr, at, stop: str, depth: int = 6) -> list[tuple[as
     return out
 
 
+def _copies_iter(cfg, expr: ast.expr, at, stop: str, in_test: set, in_loop: set, same: bool = False, depth: int = 6) -> list:
+    """_copies with, for each leaf, whether it is evaluated in the same iteration of the stratum loop as a point under the test
+    `chosen in stratum.subset`: the chain passed through such a point and every copy followed since then is made in the loop
+    body on every passage before its use (its statement dominates the use and is the only definition reaching it)"""
+    same = same or at in in_test
+    if depth == 0 or at is None or not isinstance(expr, ast.Name) or expr.id == stop:
+        return [(expr, at, same)]
+    ds = cfg.reaching(at, expr.id)
+    if not ds:
+        return [(expr, at, same)]
+    out = []
+    for d in ds:
+        if d.kind == 'assign' and d.value is not None:
+            fresh = same and len(ds) == 1 and at in in_loop and d.node in in_loop and d.node != at and cfg.dominates(d.node, at)
+            out += _copies_iter(cfg, d.value, d.node, stop, in_test, in_loop, fresh, depth - 1)
+        else:
+            out.append((expr, at, same))
+    return out
+
+
 def _under_not_none(fn: ast.AST, w: ast.Assign) -> bool:
     """the assignment ``w`` of a local stands in the body of `if <that local> is not None`"""
     if not isinstance(w.value, ast.Name):
@@ -266,12 +286,19 @@ def run(ctx: Ctx) -> None:
         cfg = cfg_of(f.node)
         in_test = {cfg.node_of(x) for s in chosen_if[0].body for x in ast.walk(s)} - {None}
         lp_node = cfg.node_of(lpdef)
-        leaves = [(w, leaf, at) for w in writes for leaf, at in _copies(cfg, w.value, cfg.node_of(w), lpv)]
+        in_loop = {cfg.node_of(x) for s in lp.body for x in ast.walk(s)} - {None}
+        leaves = [(w, leaf, at, same) for w in writes for leaf, at, same in _copies_iter(cfg, w.value, cfg.node_of(w), lpv, in_test, in_loop)]
         kinds = []
-        for w, leaf, at in leaves:
+        for w, leaf, at, same in leaves:
             if isinstance(leaf, ast.Name) and leaf.id == lpv and at is not None:
                 if at in in_test and {d.node for d in cfg.reaching(at, lpv)} == {lp_node}:
                     kinds.append('own')
+                elif same and at in in_loop and {d.node for d in cfg.reaching(at, lpv)} == {lp_node} and cfg.dominates(lp_node, at):
+                    # read outside the test but in the same iteration as a use under the test: a copy taken from the correction of
+                    # this stratum on every passage (it dominates that use and is the only definition that reaches it)
+                    kinds.append('own')
+                elif at in in_loop and cfg.node_of(w) in in_test:
+                    kinds.append('?')  # written under the test from a copy taken in the loop on some passages only
                 elif at not in in_test and lp_node in {d.node for d in cfg.reaching(at, lpv)}:
                     kinds.append('last')
                     last_read = last_read or w
